@@ -57,7 +57,7 @@ BOUNDS = {
         "layouts": "72 + 21 with a line-break look-alike (FF VT FS NEL LS PS lone-CR) in the preceding text",
         "tails": "2 (blank-region variants behind the 72 plain layouts: without tail only)",
         "paths": "4 direct + 8 nested (include / inherit / namespace file= / include inside a def from a rendering template, in memory and with module_directory) for LF column-1 plain-layout documents without tail",
-        "html_error_template": "nested include and inherit+module_directory routes; string path, LF documents without tail; look-alike layouts without tail: string path, and file path for the LF column-1 ones; blank-region variants only there",
+        "html_error_template": "nested include route; string path, LF documents without tail; look-alike layouts without tail: string path, and file path for the LF column-1 ones; blank-region variants only there",
         "richtraceback_and_text_error_template": "string and file paths (all four thorough)",
         "programs": [
             {"weights": [0, 1, 2], "node_kinds": 13, "faults": "all"},
@@ -927,7 +927,7 @@ def run_a(tier, seed, F, sh, ns, st):
                 if tail == "" and (not quick or (layout[1] == "\n" and layout[3] == "col1" and not special and not f["variant"])):
                     paths = PATHS + NEST_PATHS
                     if html_paths:
-                        html_paths = tuple(html_paths) + ("nest:include", "nest:inherit:mod")
+                        html_paths = tuple(html_paths) + (("nest:include",) if quick else ("nest:include", "nest:inherit:mod"))
                 check_doc(text, exp, paths, html_paths, st, "A", light_paths=("lookup", "moddir") if quick else ())
                 if len(seen) % 499 == 1:
                     st.sample({"space": "A", "fault": f["name"], "layout": list(layout), "text": text, "expect": {"lineno": exp["lineno"], "pos": exp["cols"]}})
